@@ -51,12 +51,14 @@ impl DcpsDomainParticipant {
                 &mut subscriber.status_condition,
                 &mut subscriber.data_reader_list,
             );
-            'data_readers: for data_reader in data_reader_list {
+            for data_reader in data_reader_list {
                 let changes = core::mem::take(data_reader.transport_reader.changes_mut());
                 let data_reader_handle = &data_reader.instance_handle.clone();
                 tracing::trace!(subscriber_handle=?subscriber_handle, data_reader_handle=?data_reader_handle, "Processing {} reader cache changes", changes.len());
 
-                for cache_change in changes {
+                // A change that is filtered out or cannot be processed must not make the
+                // remaining changes of the batch disappear
+                'changes: for cache_change in changes {
                     if let Some(matched_participant) = discovered_participant_list
                         .iter_mut()
                         .find(|x| x.guid_prefix == cache_change.writer_guid.prefix())
@@ -69,7 +71,7 @@ impl DcpsDomainParticipant {
                         locally_created_topic_list,
                     ) else {
                         tracing::warn!(topic_name = ?data_reader.topic_name, "Failed to find type support for reader");
-                        continue 'data_readers;
+                        continue 'changes;
                     };
 
                     let (topic_name, type_name) = if let Some(content_filtered_topic) =
@@ -82,7 +84,7 @@ impl DcpsDomainParticipant {
                             .find(|t| t.topic_name == content_filtered_topic.related_topic_name)
                         else {
                             tracing::warn!(topic_name = ?data_reader.topic_name, "Failed to find related_topic_name for reader");
-                            continue 'data_readers;
+                            continue 'changes;
                         };
                         if cache_change.kind == ChangeKind::Alive {
                             let Some(data) = deserialize_topic_type(
@@ -90,7 +92,7 @@ impl DcpsDomainParticipant {
                                 *type_support,
                                 cache_change.data_value.as_ref(),
                             ) else {
-                                continue 'data_readers;
+                                continue 'changes;
                             };
                             enum Operator {
                                 LessThan,
@@ -137,10 +139,10 @@ impl DcpsDomainParticipant {
                                 let Some(member_id) =
                                     data.get_member_id_by_name(variable_name.trim())
                                 else {
-                                    continue 'data_readers;
+                                    continue 'changes;
                                 };
                                 let Ok(member_descriptor) = data.get_descriptor(member_id) else {
-                                    continue 'data_readers;
+                                    continue 'changes;
                                 };
                                 match member_descriptor.r#type.get_kind() {
                                     crate::xtypes::dynamic_type::TypeKind::NONE => todo!(),
@@ -155,7 +157,7 @@ impl DcpsDomainParticipant {
                                                 .parse()
                                                 .expect("valid number"),
                                         ) {
-                                            continue 'data_readers;
+                                            continue 'changes;
                                         }
                                     }
                                     crate::xtypes::dynamic_type::TypeKind::INT64 => todo!(),
@@ -177,7 +179,7 @@ impl DcpsDomainParticipant {
                                             member_value,
                                             &content_filtered_topic.expression_parameters[0],
                                         ) {
-                                            continue 'data_readers;
+                                            continue 'changes;
                                         }
                                     }
                                     crate::xtypes::dynamic_type::TypeKind::ALIAS => todo!(),
@@ -194,7 +196,7 @@ impl DcpsDomainParticipant {
                                     crate::xtypes::dynamic_type::TypeKind::MAP => todo!(),
                                 }
                             } else {
-                                continue 'data_readers;
+                                continue 'changes;
                             };
                         }
                         (
@@ -207,7 +209,7 @@ impl DcpsDomainParticipant {
                             .find(|t| t.topic_name == data_reader.topic_name)
                         else {
                             tracing::warn!(topic_name = ?data_reader.topic_name, "Failed to find topic for reader");
-                            continue 'data_readers;
+                            continue 'changes;
                         };
                         (
                             data_reader.topic_name.clone(),
@@ -226,7 +228,7 @@ impl DcpsDomainParticipant {
                                     cache_change.data_value.as_ref(),
                                 ) else {
                                     tracing::warn!("Failed to deserialize user defined data");
-                                    continue 'data_readers;
+                                    continue 'changes;
                                 };
                                 let Ok(instance_handle) =
                                     get_instance_handle_from_dynamic_data(&data_value)
@@ -234,7 +236,7 @@ impl DcpsDomainParticipant {
                                     tracing::warn!(
                                         "Failed to get instance handle from dynamic_data"
                                     );
-                                    continue 'data_readers;
+                                    continue 'changes;
                                 };
                                 instance_handle
                             }
@@ -247,7 +249,7 @@ impl DcpsDomainParticipant {
                                     &mut dynamic_members,
                                 ) else {
                                     tracing::warn!("Failed to create key holder");
-                                    continue 'data_readers;
+                                    continue 'changes;
                                 };
 
                                 let Ok(data_value) = deserialize_top_level_type(
@@ -257,7 +259,7 @@ impl DcpsDomainParticipant {
                                     tracing::warn!(
                                         "Failed to deserialize disposed user defined data"
                                     );
-                                    continue 'data_readers;
+                                    continue 'changes;
                                 };
 
                                 let Ok(instance_handle) =
@@ -266,7 +268,7 @@ impl DcpsDomainParticipant {
                                     tracing::warn!(
                                         "Failed to deserialize disposed key user defined data"
                                     );
-                                    continue 'data_readers;
+                                    continue 'changes;
                                 };
                                 instance_handle
                             }
